@@ -180,7 +180,7 @@ struct Global {
 };
 extern Global g;
 // coverage state lives in plain zero-initialised statics: the sancov constructors run before g's constructor
-extern sigjmp_buf g_run_jmp; extern bool g_run_jmp_set;   // whole-run guard: a fault in harness code that trusts library results
+extern sigjmp_buf g_run_jmp; extern bool g_run_jmp_set; extern bool g_run_abandoned;   // abandoned: the simulator ran out of arena space   // whole-run guard: a fault in harness code that trusts library results
 extern uint8_t* g_guard_hit; extern uint32_t g_n_guards;
 extern const uintptr_t* g_pcs_beg; extern const uintptr_t* g_pcs_end;   // sancov pc-table: (pc, flags) per guard
 
